@@ -98,27 +98,31 @@ const LiveSet GASSETS[4] = {
       {300, {{0.0011, 0.0035, 0.03}, {0.0004, 0.0036, 0.026}, {0, 0.0037, 0.022}}},
       {900, {{0.00111, 0.0015, 0.06}, {0.0006, 0.00155, 0.05}, {0, 0.0016, 0.04}}}}}};
 struct DeadSet { Pt r[6]; };                    // y = p
-const DeadSet PVDOSETS[3] = {
+const DeadSet PVDOSETS[4] = {
     {{{20, 1.10, 1.0}, {80, 1.09, 1.05}, {150, 1.08, 1.1}, {250, 1.07, 1.2}, {400, 1.05, 1.35}, {600, 1.03, 1.5}}},
     {{{1.5, 1.31, 0.41}, {33.3, 1.295, 0.43}, {34.1, 1.2949, 0.4301}, {210.7, 1.22, 0.55}, {398, 1.17, 0.71}, {811, 1.09, 1.3}}},
-    {{{100, 1.5, 2.0}, {101, 1.4, 2.0}, {300, 1.2, 5.0}, {301, 1.19, 5.1}, {302, 1.18, 5.2}, {1000, 1.0, 9.0}}}};
-const DeadSet PVDGSETS[3] = {
+    {{{100, 1.5, 2.0}, {101, 1.4, 2.0}, {300, 1.2, 5.0}, {301, 1.19, 5.1}, {302, 1.18, 5.2}, {1000, 1.0, 9.0}}},
+    {{{5, 1.6, 0.3}, {7, 1.55, 0.31}, {400, 1.3, 0.6}, {405, 1.299, 0.61}, {900, 1.2, 1.1}, {1500, 1.15, 2.0}}}};   // D: only used by the region-defaulting regime
+const DeadSet PVDGSETS[4] = {
     {{{20, 0.06, 0.012}, {60, 0.02, 0.013}, {100, 0.012, 0.016}, {200, 0.006, 0.02}, {300, 0.004, 0.025}, {500, 0.0025, 0.033}}},
     {{{14.7, 0.21, 0.0107}, {45.5, 0.0701, 0.0111}, {46, 0.0693, 0.01111}, {133.3, 0.0231, 0.0134}, {290, 0.0107, 0.0188}, {612, 0.0059, 0.0301}}},
-    {{{50, 0.03, 0.015}, {51, 0.0295, 0.015}, {250, 0.0061, 0.021}, {251, 0.00608, 0.0211}, {252, 0.00606, 0.0212}, {900, 0.0021, 0.04}}}};
+    {{{50, 0.03, 0.015}, {51, 0.0295, 0.015}, {250, 0.0061, 0.021}, {251, 0.00608, 0.0211}, {252, 0.00606, 0.0212}, {900, 0.0021, 0.04}}},
+    {{{30, 0.04, 0.011}, {90, 0.0125, 0.0125}, {91, 0.01236, 0.01252}, {180, 0.0061, 0.0152}, {420, 0.0027, 0.0242}, {700, 0.0018, 0.036}}}};   // D: region-defaulting regime
 struct CCSet { double pref, B, C, mu, Cv; };
-const CCSet PVTWSETS[3] = {{200, 1.02, 4.5e-5, 0.5, 1.0e-5}, {14.7, 1.0041, 3.1e-6, 0.31, 0.0}, {1, 1.1, 1.0e-3, 1.1, 2.0e-3}};
-const CCSet PVCDOSETS[3] = {{200, 1.25, 1.2e-4, 1.1, 3.0e-5}, {14.7, 1.05, 8.0e-6, 2.3, 0.0}, {50, 1.5, 1.0e-3, 0.9, 5.0e-4}};
+const CCSet PVTWSETS[4] = {{200, 1.02, 4.5e-5, 0.5, 1.0e-5}, {14.7, 1.0041, 3.1e-6, 0.31, 0.0}, {1, 1.1, 1.0e-3, 1.1, 2.0e-3}, {100, 1.035, 5.0e-5, 0.4, 2.0e-5}};
+const CCSet PVCDOSETS[4] = {{200, 1.25, 1.2e-4, 1.1, 3.0e-5}, {14.7, 1.05, 8.0e-6, 2.3, 0.0}, {50, 1.5, 1.0e-3, 0.9, 5.0e-4}, {120, 1.3, 2.0e-4, 1.7, 1.0e-4}};
 const double DENS[4][3] = {{850, 1000, 0.9}, {790.5, 1033, 1.12}, {910, 1100, 0.7}, {859.5, 1033, 0.854}};   // oil water gas (deck numbers)
 
 // ----------------------------------------------------------- case ---------
-struct RSpec { int set = 0; std::vector<int> k; };          // live: k per saturated node; dead: {n}; cc: {}
+struct RSpec { int set = 0; std::vector<int> k; bool dflt = false; };   // live: k per saturated node; dead: {n}; cc: {}; dflt: the region's table is defaulted in the deck (a lone '/'): it is the nearest preceding real table
+RSpec mk(int set, const std::vector<int>& k) { RSpec r; r.set = set; r.k = k; return r; }
+RSpec mkdflt() { RSpec r; r.dflt = true; return r; }
 struct Fam { std::string kw; std::vector<RSpec> regs; };
 struct Case { int unit = 0; Fam oil, gas, wat; int nt = 3; };  // nt: number of interior fractions per segment (3: quarters, 7: eighths)
 
 std::string fam_str(const Fam& f) {
     std::string s = f.kw + ":";
-    for (size_t r = 0; r < f.regs.size(); ++r) { if (r) s += ","; s += char('A' + f.regs[r].set); for (int k : f.regs[r].k) s += std::to_string(k); }
+    for (size_t r = 0; r < f.regs.size(); ++r) { if (r) s += ","; if (f.regs[r].dflt) { s += "-"; continue; } s += char('A' + f.regs[r].set); for (int k : f.regs[r].k) s += std::to_string(k); }
     return s;
 }
 std::string case_str(const Case& c) { return std::string("u=") + UNITS[c.unit].name + ";oil=" + fam_str(c.oil) + ";gas=" + fam_str(c.gas) + ";wat=" + fam_str(c.wat) + ";nt=" + std::to_string(c.nt); }
@@ -130,6 +134,7 @@ Fam parse_fam(const std::string& s) {
         char ch = i < s.size() ? s[i] : ',';
         if (ch == ',') { if (have) f.regs.push_back(cur); cur = RSpec(); have = false; }
         else if (ch >= 'A' && ch <= 'D') { cur.set = ch - 'A'; have = true; }
+        else if (ch == '-') { cur.dflt = true; have = true; }
         else if (ch >= '1' && ch <= '9') cur.k.push_back(ch - '0');
         else throw std::runtime_error("bad family " + s);
     }
@@ -150,10 +155,13 @@ Case parse_case(const std::string& s) {
 }
 
 std::string N(double v) { return vf::fmt17(v); }
+// the table a region uses: its own, or (defaulted) the nearest preceding real one -- the reference semantics of region defaulting
+const RSpec& resolve(const Fam& f, size_t r) { while (r > 0 && f.regs[r].dflt) --r; if (f.regs[r].dflt) throw std::runtime_error("region 1 cannot be defaulted"); return f.regs[r]; }
 
 void live_text(std::ostream& o, const Fam& f, const LiveSet* sets) {
     o << f.kw << "\n";
     for (auto& r : f.regs) {
+        if (r.dflt) { o << "/\n"; continue; }          // defaulted region: empty table
         for (size_t i = 0; i < r.k.size(); ++i) {
             const Nd& nd = sets[r.set].n[i];
             o << " " << N(nd.x);
@@ -164,11 +172,11 @@ void live_text(std::ostream& o, const Fam& f, const LiveSet* sets) {
 }
 void dead_text(std::ostream& o, const Fam& f, const DeadSet* sets) {
     o << f.kw << "\n";
-    for (auto& r : f.regs) { for (int j = 0; j < r.k[0]; ++j) { const Pt& p = sets[r.set].r[j]; o << " " << N(p.y) << " " << N(p.B) << " " << N(p.mu) << (j + 1 < r.k[0] ? "\n" : " /\n"); } }
+    for (auto& r : f.regs) { if (r.dflt) { o << " /\n"; continue; } for (int j = 0; j < r.k[0]; ++j) { const Pt& p = sets[r.set].r[j]; o << " " << N(p.y) << " " << N(p.B) << " " << N(p.mu) << (j + 1 < r.k[0] ? "\n" : " /\n"); } }
 }
 void cc_text(std::ostream& o, const Fam& f, const CCSet* sets) {
     o << f.kw << "\n";
-    for (auto& r : f.regs) { const CCSet& s = sets[r.set]; o << " " << N(s.pref) << " " << N(s.B) << " " << N(s.C) << " " << N(s.mu) << " " << N(s.Cv) << " /\n"; }
+    for (auto& r : f.regs) { if (r.dflt) { o << " /\n"; continue; } const CCSet& s = sets[r.set]; o << " " << N(s.pref) << " " << N(s.B) << " " << N(s.C) << " " << N(s.mu) << " " << N(s.Cv) << " /\n"; }
 }
 std::string deck_text(const Case& c) {
     std::ostringstream o;
@@ -177,7 +185,7 @@ std::string deck_text(const Case& c) {
     if (c.oil.kw == "PVTO") o << "DISGAS\n";
     if (c.gas.kw == "PVTG") o << "VAPOIL\n";
     o << UNITS[c.unit].kw << "\nTABDIMS\n 1 " << nreg << " /\nGRID\nDX\n 100 /\nDY\n 100 /\nDZ\n 10 /\nTOPS\n 1000 /\nPORO\n 0.3 /\nPERMX\n 100 /\nPERMY\n 100 /\nPERMZ\n 100 /\nPROPS\nDENSITY\n";
-    for (size_t r = 0; r < nreg; ++r) { const double* d = DENS[c.oil.regs[r].set]; o << " " << N(d[0]) << " " << N(d[1]) << " " << N(d[2]) << " /\n"; }
+    for (size_t r = 0; r < nreg; ++r) { const double* d = DENS[resolve(c.oil, r).set]; o << " " << N(d[0]) << " " << N(d[1]) << " " << N(d[2]) << " /\n"; }
     cc_text(o, c.wat, PVTWSETS);
     if (c.oil.kw == "PVTO") live_text(o, c.oil, OILSETS); else if (c.oil.kw == "PVDO") dead_text(o, c.oil, PVDOSETS); else cc_text(o, c.oil, PVCDOSETS);
     if (c.gas.kw == "PVTG") live_text(o, c.gas, GASSETS); else dead_text(o, c.gas, PVDGSETS);
@@ -245,6 +253,9 @@ struct Sink {
     vf::Run* R = nullptr;            // null: collect only (METRIC twin)
     std::string cs, unit, tab;
     int reg = 0;
+    bool dflt = false;               // the region under check is defaulted in the deck
+    int src = 0;                     // ... and this is the region whose table it must equal
+    std::map<std::pair<std::string, int>, std::set<std::string>> rk;   // (table, region) -> base keys raised there
     std::set<std::string> keys;      // base keys raised (collect mode and main mode)
     std::function<const std::set<std::string>&()> twin;   // lazily: node keys of the METRIC twin of this case
     uint64_t h = 1469598103934665603ull;                  // observation hash
@@ -253,11 +264,15 @@ struct Sink {
     // kind: node|bracket|continuity|continuity:midnode|satpressure|derivative|range|throws
     void viol(const std::string& quantity, const std::string& kind, const std::string& what) {
         std::string key = "C14:" + tab + ":" + quantity + ":" + kind;
+        rk[{tab, reg}].insert(key);
+        // a failure of a defaulted region that its source region (same table, given explicitly) does not show is a defect of region defaulting
+        const bool dspecific = dflt && !rk[{tab, src}].count(key);
+        if (dspecific) key += ":defaulted-region";
         keys.insert(key);
         if (!R) return;
         // a node mismatch that the METRIC twin (same deck numbers) does not show is a unit-conversion defect of this system
-        if (kind == "node" && unit != "METRIC" && twin && !twin().count(key)) key += ":" + unit;
-        R->violation(key, tab + " region " + std::to_string(reg + 1) + " [" + unit + "] " + quantity + " " + kind + ": " + what, "{\"case\": " + vf::jstr(cs) + "}");
+        if (kind == "node" && !dspecific && unit != "METRIC" && twin && !twin().count(key)) key += ":" + unit;
+        R->violation(key, tab + " region " + std::to_string(reg + 1) + (dflt ? " (defaulted: must equal region " + std::to_string(src + 1) + "'s table)" : "") + " [" + unit + "] " + quantity + " " + kind + ": " + what, "{\"case\": " + vf::jstr(cs) + "}");
     }
 };
 
@@ -298,7 +313,7 @@ template <class F> void deriv2(Sink& S, const std::string& q, F&& f, double p, d
     try { r = f(E2::createVariable(TEMP, 0), E2::createVariable(p, 1)); }
     catch (const std::exception& e) { S.viol(q, "throws", std::string("Evaluation<double,2> call threw: ") + e.what() + " at x=" + N(p)); return; }
     const double v = f(TEMP, p);
-    if (!releq(r.value(), v, 1e-13) && !(r.value() == v)) S.viol(q, "derivative:value", "Evaluation value differs from double value " + gw(r.value(), v) + " at x=" + N(p));
+    if (!releq(r.value(), v, 1e-10) && !(r.value() == v)) S.viol(q, "derivative:value", "Evaluation value differs from double value " + gw(r.value(), v) + " at x=" + N(p));
     std::string why;
     int a = fd_check([&](double x) { return f(x, p); }, TEMP, 1.0, r.derivative(0), why);
     if (a == 2) S.viol(q, "derivative", "d/dT " + why + " at x=" + N(p));
@@ -313,7 +328,7 @@ template <class F> void deriv3(Sink& S, const std::string& q, F&& f, double p, d
     try { r = f(E3::createVariable(TEMP, 0), E3::createVariable(p, 1), E3::createVariable(R, 2)); }
     catch (const std::exception& e) { S.viol(q, "throws", std::string("Evaluation<double,3> call threw: ") + e.what() + at(p, R)); return; }
     const double v = f(TEMP, p, R);
-    if (!releq(r.value(), v, 1e-13) && !(r.value() == v)) S.viol(q, "derivative:value", "Evaluation value differs from double value " + gw(r.value(), v) + at(p, R));
+    if (!releq(r.value(), v, 1e-10) && !(r.value() == v)) S.viol(q, "derivative:value", "Evaluation value differs from double value " + gw(r.value(), v) + at(p, R));
     std::string why;
     int a = fd_check([&](double x) { return f(x, p, R); }, TEMP, 1.0, r.derivative(0), why);
     if (a == 2) S.viol(q, "derivative", "d/dT " + why + at(p, R));
@@ -618,30 +633,30 @@ void run_case(const Case& c, vf::Run* R, std::set<std::string>* collect) {
         Opm::OilPvtMultiplexer<double> oil; oil.initFromState(es, sched);
         Opm::GasPvtMultiplexer<double> gas; gas.initFromState(es, sched);
         Opm::WaterPvtMultiplexer<double> wat; wat.initFromState(es, sched);
-        if (oil.numRegions() != nreg || gas.numRegions() != nreg || wat.numRegions() != nreg) { S.tab = "ALL"; S.viol("regions", "node", "number of PVT regions differs from the deck's " + std::to_string(nreg)); }
+        if (oil.numRegions() != nreg || gas.numRegions() != nreg || wat.numRegions() != nreg) { S.dflt = false; S.tab = "ALL"; S.viol("regions", "node", "number of PVT regions differs from the deck's " + std::to_string(nreg)); }
         for (size_t r = 0; r < nreg; ++r) {
             S.reg = int(r);
-            S.tab = c.oil.kw;
+            S.tab = c.oil.kw; S.dflt = c.oil.regs[r].dflt; S.src = int(r); while (S.src > 0 && c.oil.regs[S.src].dflt) --S.src;
             try {
                 OilView<Opm::OilPvtMultiplexer<double>> ov{oil, unsigned(r)};
-                if (c.oil.kw == "PVTO") check_live(S, ov, live_ref(true, c.oil.regs[r], u), c.nt);
-                else if (c.oil.kw == "PVDO") check_dead(S, ov, dead_ref(true, c.oil.regs[r], u), c.nt);
-                else check_cc(S, ov, cc_ref(true, c.oil.regs[r], u));
+                if (c.oil.kw == "PVTO") check_live(S, ov, live_ref(true, resolve(c.oil, r), u), c.nt);
+                else if (c.oil.kw == "PVDO") check_dead(S, ov, dead_ref(true, resolve(c.oil, r), u), c.nt);
+                else check_cc(S, ov, cc_ref(true, resolve(c.oil, r), u));
             } catch (const std::exception& e) { S.viol("any", "throws", std::string("evaluation threw: ") + e.what()); }
-            S.tab = c.gas.kw;
+            S.tab = c.gas.kw; S.dflt = c.gas.regs[r].dflt; S.src = int(r); while (S.src > 0 && c.gas.regs[S.src].dflt) --S.src;
             try {
                 GasView<Opm::GasPvtMultiplexer<double>> gv{gas, unsigned(r)};
-                if (c.gas.kw == "PVTG") check_live(S, gv, live_ref(false, c.gas.regs[r], u), c.nt);
-                else check_dead(S, gv, dead_ref(false, c.gas.regs[r], u), c.nt);
+                if (c.gas.kw == "PVTG") check_live(S, gv, live_ref(false, resolve(c.gas, r), u), c.nt);
+                else check_dead(S, gv, dead_ref(false, resolve(c.gas, r), u), c.nt);
             } catch (const std::exception& e) { S.viol("any", "throws", std::string("evaluation threw: ") + e.what()); }
-            S.tab = c.wat.kw;
+            S.tab = c.wat.kw; S.dflt = c.wat.regs[r].dflt; S.src = int(r); while (S.src > 0 && c.wat.regs[S.src].dflt) --S.src;
             try {
                 WatView<Opm::WaterPvtMultiplexer<double>> wv{wat, unsigned(r)};
-                check_cc(S, wv, cc_ref(false, c.wat.regs[r], u));
+                check_cc(S, wv, cc_ref(false, resolve(c.wat, r), u));
             } catch (const std::exception& e) { S.viol("any", "throws", std::string("evaluation threw: ") + e.what()); }
         }
     } catch (const std::exception& e) {
-        S.tab = "DECK"; S.viol("init", "throws", std::string("a valid deck was rejected (Parser/EclipseState/Schedule/initFromState threw): ") + std::string(e.what()).substr(0, 300));
+        S.dflt = false; S.tab = "DECK"; S.viol("init", "throws", std::string("a valid deck was rejected (Parser/EclipseState/Schedule/initFromState threw): ") + std::string(e.what()).substr(0, 300));
     }
     if (collect) *collect = S.keys;
     if (R) { R->observe(vf::fnv(cs, S.h)); }
@@ -662,12 +677,12 @@ std::vector<std::vector<int>> live_shapes(int nmin, int nmax) {
 }
 // all region assignments of a family: (distinct) value sets per region x shapes per region
 void gen_regs(const std::vector<int>& sets, int maxreg, const std::vector<std::vector<int>>& shapes, const std::vector<std::vector<int>>& shapes3, std::vector<std::vector<RSpec>>& out) {
-    for (int s : sets) for (auto& sh : shapes) out.push_back({RSpec{s, sh}});
-    for (int s1 : sets) for (int s2 : sets) { if (s1 == s2) continue; for (auto& a : shapes) for (auto& b : shapes) out.push_back({RSpec{s1, a}, RSpec{s2, b}}); }
+    for (int s : sets) for (auto& sh : shapes) out.push_back({mk(s, sh)});
+    for (int s1 : sets) for (int s2 : sets) { if (s1 == s2) continue; for (auto& a : shapes) for (auto& b : shapes) out.push_back({mk(s1, a), mk(s2, b)}); }
     if (maxreg >= 3 && sets.size() >= 3)
         for (int s1 : sets) for (int s2 : sets) for (int s3 : sets) {
             if (s1 == s2 || s1 == s3 || s2 == s3) continue;
-            for (auto& a : shapes3) for (auto& b : shapes3) for (auto& d : shapes3) out.push_back({RSpec{s1, a}, RSpec{s2, b}, RSpec{s3, d}});
+            for (auto& a : shapes3) for (auto& b : shapes3) for (auto& d : shapes3) out.push_back({mk(s1, a), mk(s2, b), mk(s3, d)});
         }
 }
 // companions (not the subject of the enumeration, but checked all the same)
@@ -694,6 +709,7 @@ int main(int argc, char** argv) {
     const bool T = run.thorough();
     run.rule = std::string("shape-exhaustive: PVTO/PVTG with ") + (T ? "2-4" : "2-3") + " saturated nodes x 1-3 undersaturated points each (all combinations, last node >= 2), PVDO/PVDG with "
         + (T ? "2-6" : "2-4") + " nodes, PVTW/PVCDO records; 1-2 PVT regions with all ordered pairs of distinct value sets and all shape pairs" + (T ? " (+ 3 regions: all ordered triples of distinct value sets x all 2-node shape triples)" : "")
+        + "; region defaulting: NTPVT in {2,3,4} x every pattern {own table, defaulted '/'} over regions 2..NTPVT x all ordered selections of pairwise different value sets (A-D) for the own tables x rotated shapes, for PVTO, PVTG, PVDO, PVDG, PVTW (PVCDO records cannot be defaulted), a defaulted region judged by all oracles against the nearest preceding real table (keys end in :defaulted-region)"
         + "; x {METRIC,FIELD,LAB,PVT-M}; " + (T ? "3" : "2") + " fixed physically ordered value sets (PVTO/PVTG: + set D with very unevenly spaced saturated pressures and strongly concave Rs(p)/Rv(p), whose saturationPressure Newton iteration overshoots below 0 Pa); saturationPressure(Rsat(p)) = p on nodes and on the 16ths of every saturated interval; other interior points at " + (T ? "eighths" : "quarters")
         + " of every segment; every deck through Parser->EclipseState->Schedule->*PvtMultiplexer::initFromState; oracles: node 1e-9, documented extension of single-point nodes 1e-9, bracket 1e-12, continuity (nodes 1e-12, between nodes 1e-9), saturationPressure inversion 1e-7, finite+continuous 10% beyond range, AD derivative vs central difference 1e-5 (h-sweep 1e-4..1e-7, kink-guarded); distinct = distinct (case, returned values) hashes";
     run.assumptions = {
@@ -702,7 +718,8 @@ int main(int argc, char** argv) {
         "lines of single-point nodes are not determined by the property text; they are compared (kind 'extension', separate keys) with the behaviour documented in extendPvtoTable_/extendPvtgTable_: the master line (next node with >= 2 points) at the same p/Rv offsets, scaled to the node's own saturated B and mu (same compressibility/viscosibility)",
         "saturationPressure tolerance 1e-7: Newton stops at |dp| < 2.2e-10 p on a piecewise-linear Rs(p)/Rv(p), a step inside the right segment lands on the root",
         "PVTW/PVCDO: B and mu at the reference pressure, compressibility/viscosibility as relative slopes there (1e-6); no formula is assumed away from pref",
-        "values outside the fixed value sets, non-monotone tables, defaulted entries, region defaulting, VAPPARS and thermal/brine variants are not covered",
+        "region defaulting semantics (reference): an empty PVTO/PVTG table, an empty PVDO/PVDG record and an all-defaulted PVTW record mean 'the table of the nearest preceding region that has one'; DENSITY is always given explicitly; PVCDO does not accept defaulted records",
+        "values outside the fixed value sets, non-monotone tables, defaulted single entries inside a table, VAPPARS and thermal/brine variants are not covered",
         "co2/h2 table traits are zero stubs (harness/C14_stubs.cpp): never read by table-based black-oil PVT"};
 
     if (!run.replay_path.empty()) {
@@ -723,30 +740,72 @@ int main(int argc, char** argv) {
                           {"PVCDO", "oil", &cshape, &cshape, false}, {"PVTW", "wat", &cshape, &cshape, false}};
     uint64_t idx = 0;
     bool stop = false;
+    // one case: `prim` is the enumerated family; the other two phases are deterministic companions.  `dmask` (bit r-1: region
+    // r+1 defaulted) is also applied to the companions where the input format allows a defaulted region (not PVCDO).
+    auto exec = [&](const char* kw, const std::string& kind, const std::vector<RSpec>& rg, unsigned dmask, const char* counter) {
+        for (int unit = 0; unit < 4 && !stop; ++unit) {
+            ++idx;
+            if (!run.mine()) continue;
+            if (run.timed_out()) { stop = true; break; }
+            Case c; c.unit = unit; c.nt = nt;
+            Fam prim{kw, rg};
+            c.oil = kind == "oil" ? prim : companion("oil", rg.size(), idx, nsets);
+            c.gas = kind == "gas" ? prim : companion("gas", rg.size(), idx, nsets);
+            c.wat = kind == "wat" ? prim : companion("wat", rg.size(), idx, nsets);
+            for (Fam* f : {&c.oil, &c.gas, &c.wat})
+                if (f->kw != "PVCDO") for (size_t r = 1; r < f->regs.size(); ++r) if (dmask & (1u << (r - 1))) f->regs[r] = mkdflt();
+            const std::string cs = case_str(c);
+            run.current(cs);
+            run.evaluations++;
+            run.count(counter);
+            run_case(c, &run, nullptr);
+            if (run.samples.size() < 2 && rg.size() == 2 && unit == 1) run.sample_str(cs + "\n" + deck_text(c));
+            else if (run.samples.size() < 4 && dmask == 6 && unit == 0) run.sample_str(cs + "\n" + deck_text(c));
+            else if (run.samples.size() < 6 && (idx % 977) == 0) run.sample_str(cs);
+        }
+    };
+    // (1) every region has its own table
     for (const Prim& P : prims) {
         if (stop) break;
         std::vector<std::vector<RSpec>> regs;
         gen_regs(P.live ? liveSets : baseSets, maxreg, *P.sh, *P.sh3, regs);
-        run.count(std::string("tables_") + P.kw, 0);
-        for (auto& rg : regs)
-            for (int unit = 0; unit < 4 && !stop; ++unit) {
-                ++idx;
-                if (!run.mine()) continue;
-                if (run.timed_out()) { stop = true; break; }
-                Case c; c.unit = unit; c.nt = nt;
-                const std::string kind = P.kind;
-                Fam prim{P.kw, rg};
-                c.oil = kind == "oil" ? prim : companion("oil", rg.size(), idx, nsets);
-                c.gas = kind == "gas" ? prim : companion("gas", rg.size(), idx, nsets);
-                c.wat = kind == "wat" ? prim : companion("wat", rg.size(), idx, nsets);
-                const std::string cs = case_str(c);
-                run.current(cs);
-                run.evaluations++;
-                run.count(std::string("tables_") + P.kw);
-                run_case(c, &run, nullptr);
-                if (run.samples.size() < 2 && rg.size() == 2 && unit == 1) run.sample_str(cs + "\n" + deck_text(c));
-                else if (run.samples.size() < 5 && (idx % 977) == 0) run.sample_str(cs);
-            }
+        const std::string counter = std::string("tables_") + P.kw;
+        run.count(counter, 0);
+        for (auto& rg : regs) { if (stop) break; exec(P.kw, P.kind, rg, 0u, counter.c_str()); }
+    }
+    // (2) region defaulting: NTPVT in {2,3,4}, every pattern {own table, defaulted} over regions 2..NTPVT, the own tables
+    //     pairwise different (all ordered selections of distinct value sets out of A-D), shapes rotated over a fixed list.
+    {
+        const std::vector<std::vector<int>> lsh = T ? std::vector<std::vector<int>>{{2, 2}, {1, 3}, {3, 1, 2}, {1, 1, 3}, {2, 3}, {3, 3, 3}, {1, 2}, {3, 2, 1, 2}, {1, 1, 1, 2}, {2, 1, 3, 3}, {1, 3, 2}, {2, 2, 2}}
+                                                    : std::vector<std::vector<int>>{{2, 2}, {1, 3}, {3, 1, 2}};
+        const std::vector<std::vector<int>> dsh = T ? std::vector<std::vector<int>>{{2}, {3}, {4}, {5}, {6}} : std::vector<std::vector<int>>{{2}, {3}, {4}};
+        struct DPrim { const char* kw; const char* kind; const std::vector<std::vector<int>>* sh; };
+        const DPrim dprims[] = {{"PVTO", "oil", &lsh}, {"PVTG", "gas", &lsh}, {"PVDO", "oil", &dsh}, {"PVDG", "gas", &dsh}, {"PVTW", "wat", &cshape}};   // PVCDO: no defaulted records in the input format
+        for (const DPrim& P : dprims) {
+            const std::string counter = std::string("defaulting_") + P.kw;
+            run.count(counter, 0);
+            for (int N = 2; N <= 4 && !stop; ++N)
+                for (unsigned mask = 0; mask < (1u << (N - 1)) && !stop; ++mask) {
+                    std::vector<int> own;                                   // regions with an own table
+                    for (int r = 0; r < N; ++r) if (r == 0 || !(mask & (1u << (r - 1)))) own.push_back(r);
+                    const int m = int(own.size());
+                    // all ordered selections of m distinct sets out of 4
+                    std::vector<int> sel(m, 0);
+                    std::function<void(int)> rec = [&](int d) {
+                        if (stop) return;
+                        if (d == m) {
+                            for (size_t v = 0; v < P.sh->size() && !stop; ++v) {
+                                std::vector<RSpec> rg(N, mkdflt());
+                                for (int k = 0; k < m; ++k) rg[own[k]] = mk(sel[k], (*P.sh)[(v + k) % P.sh->size()]);
+                                exec(P.kw, P.kind, rg, mask, counter.c_str());
+                            }
+                            return;
+                        }
+                        for (int s = 0; s < 4; ++s) { bool used = false; for (int e = 0; e < d; ++e) used |= sel[e] == s; if (used) continue; sel[d] = s; rec(d + 1); }
+                    };
+                    rec(0);
+                }
+        }
     }
     return run.finish();
 }
